@@ -253,7 +253,7 @@ def gscs(draw, kinds, nlevels, approx_evals_per_metaepoch: int):
         g["limit"] = draw(st.sampled_from([1, 2, 3, 4, 4, 5, 5, 6, 6, 8]))
     elif k in ("SingularProblemEvalLimitReached", "FitnessEvalLimitReached"):
         a = max(2, approx_evals_per_metaepoch)
-        g["limit"] = draw(st.one_of(st.integers(1, a), st.integers(a, 4 * a), st.integers(2 * a, 12 * a)))
+        g["limit"] = draw(st.one_of(st.integers(1, a), st.integers(a, 4 * a), st.integers(2 * a, 12 * a), st.integers(4 * a, 20 * a)))
         if k == "FitnessEvalLimitReached":
             w = draw(st.sampled_from(["equal", "root", "none", "explicit", "default"]))
             g["weights"] = w
@@ -275,9 +275,9 @@ def sprouts(draw, box, nlevels, prof):
     sprouty = bool(prof.get("sprouty"))
     s = {"kind": k, "level_limit": draw(st.integers(prof.get("level_limit_min", 1), ll_max))}
     if k == "simple":
-        s["far_enough_frac"] = draw(st.sampled_from([0.0, 0.0, 0.01, 0.05] if sprouty else [0.0, 0.01, 0.05, 0.1, 0.1, 0.5, 2.0]))
+        s["far_enough_frac"] = draw(st.sampled_from([0.0, 0.0, 0.01, 0.05] if sprouty else [0.0, 0.0, 0.01, 0.05, 0.1, 0.1, 0.3, 1.0]))
     elif k == "nbc":
-        s["gen_dist_factor"] = draw(st.sampled_from([0.3, 0.5, 1.0] if sprouty else [0.5, 1.0, 2.0, 3.0]))
+        s["gen_dist_factor"] = draw(st.sampled_from([0.3, 0.5, 1.0] if sprouty else [0.5, 1.0, 1.0, 2.0, 3.0]))
         s["trunc_factor"] = draw(st.sampled_from([0.5, 0.7, 1.0]))
         s["fil_dist_factor"] = draw(st.sampled_from([0.0, 0.0, 0.5] if sprouty else [0.0, 0.5, 1.0, 3.0]))
     else:
@@ -294,7 +294,7 @@ def sprouts(draw, box, nlevels, prof):
         if gk == "Scripted":
             # tape of proposals: per call (per active non-leaf deme per round) how many members, and which
             s["generator"]["tape"] = draw(st.lists(st.lists(st.integers(0, 11), max_size=4), max_size=16))
-            s["generator"]["default_k"] = draw(st.sampled_from([1, 2, 2, 3] if sprouty else [0, 1, 1, 2, 3]))
+            s["generator"]["default_k"] = draw(st.sampled_from([1, 2, 2, 3] if sprouty else [0, 1, 1, 2, 2, 3]))
             s["generator"]["nbc_mean_distance_frac"] = draw(st.sampled_from([0.0, 0.01, 0.1]))
         dfs = []
         for name in draw(st.permutations(["FarEnough", "NBC_FarEnough", "DemeLimit"])):
